@@ -247,6 +247,9 @@ func checkC12(c *Ctx) {
 	}
 	R.min("C12.getter", 6)
 
+	// 遍历 binds the element's own 1-based position
+	borrowRule(c, "C02", "C02.iter", "C12.iter")
+
 	// ---- C12.empty
 	for _, name := range []string{"arrayGetFirstItem", "arrayGetLastItem", "shiftArrayValue"} {
 		f := u.ssaFunc("pkg/value", name)
@@ -627,6 +630,9 @@ func checkC19(c *Ctx) {
 		}
 		R.check(ok, "C19.catch", "pkg/common."+name, pos, "an encoding/json failure becomes an exception signal (catchable by 拦截)", "an encoding/json failure is dropped or returned as a non-catchable error")
 	}
+	// the dictionary handed to the generator is consistent: a removed key is gone from the map as well as from the order list
+	borrowRule(c, "C12", "C12.sync", "C19.sync")
+
 	// ---- C19.verbatim: the generated text is exactly the bytes encoding/json produced (no textual post-processing:
 	// it cannot know the escaping context and turns valid JSON into invalid JSON)
 	for _, name := range []string{"HashMapToJSONString", "ElementToJSONString"} {
